@@ -2,7 +2,7 @@
 # usage: lib/sweep.sh [tier] [seed] [props...]  -> one summary line per property
 tier=${1:-quick}; seed=${2:-1}; shift 2 2>/dev/null
 props=${@:-C01 C02 C03 C04 C05 C06 C07 C08 C09 C10 C11 C12 C13 C14 C15 C16 C17 C18 C19 C20}
-cd /verif
+cd "$(dirname "$0")/.."
 for p in $props; do
   out=$(./check $p --tier $tier --seed $seed ${SWEEP_ARGS:-} 2>&1)
   echo "$out" | grep -E "^(VIOLATION|KNOWN-FINDING|INCONCLUSIVE|HARNESS-BUG|BUILD-FAILED)" | cut -c1-400
